@@ -49,6 +49,12 @@ _SCAN_EXCEPTIONS = {
 }
 
 
+_REGULAR_RECORDS = {
+    "Sequence.declare_channel": "documented: the channel declaration is always stored as a regular call (its arguments are never variables; build() needs every channel before it replays anything; a parametrized initial target is stored separately as a target call)",
+    "Sequence.set_magnetic_field": "configuration of the (still empty) sequence: allowed only before any channel is declared, so never after the sequence became parametrized",
+}
+
+
 def run(E: Engine, rep: Report, tier: str) -> dict:
     E.prepare_summaries()
     P = E.P
@@ -81,7 +87,7 @@ def run(E: Engine, rep: Report, tier: str) -> dict:
 
     # --------------------------------------------------------------- FLOW
     from .. import sym
-    from .symutil import S, arg, elem_of, has, is_, mentions, sh, unobj
+    from .symutil import S, arg, branches, elem_of, has, is_, mentions, sh, unobj
 
     Sb = S(E, build)
     own = [l for l in Sb.log if l.fn == build.short]
@@ -235,6 +241,38 @@ def run(E: Engine, rep: Report, tier: str) -> dict:
             rep.check(both, "FLOW", f"{g.short}|call-record-scan-covers-both-lists|{sh(it_, 40)}", "searches _calls and _to_build_calls", f"{g.short} looks for calls by name in `{sh(it_, 80)}` only: configuration calls stored in the other list (made before / after the sequence became parametrized) are not seen", E.where(g))
     if n_scan < 3:
         rep.error(f"only {n_scan} by-name scans of the call record found (expected is_in_eom_mode, _validate_and_adjust_pulse, switch_device, ...)")
+    # a call recorded by hand goes to the list the `store` decorator would have chosen: _to_build_calls once the sequence is
+    # parametrized, _calls before (build replays _calls first: a regular call put in _to_build_calls is replayed AFTER the
+    # regular calls that followed it)
+    n_man = 0
+    for g in E.P.all_functions():
+        if not g.module.name.startswith("pulser.sequence") or g.kind == "overload" or "_Call(" not in norm(g.node):
+            continue
+        for l in S(E, g, inline=False).calls("append"):
+            a0 = unobj(arg(l, 0)) if arg(l, 0) is not None else None
+            if a0 is None or a0[0] != "call" or a0[1] != ("name", "_Call"):
+                continue
+            recv = unobj(l.target[1])
+            if not (mentions(recv, "_calls") or mentions(recv, "_to_build_calls")):
+                continue
+            n_man += 1
+            ok_c = False
+            for conds, leaf in branches(recv):
+                lits = set(conds) | set(sym.conj_of(l.cond))
+                par = any(is_(x, "self.is_parametrized()") is not None or x == sym.mk_not(("attr", ("name", "self"), "_building")) for x in lits)
+                reg = any(is_(x, "not self.is_parametrized()") is not None or x == ("attr", ("name", "self"), "_building") for x in lits)
+                leaf = unobj(leaf)
+                good = (leaf == ("attr", ("name", "self"), "_to_build_calls") and par) or (leaf == ("attr", ("name", "self"), "_calls") and reg)
+                if not good:
+                    break
+            else:
+                ok_c = True
+            if not ok_c and recv == ("attr", ("name", "self"), "_calls") and g.short in _REGULAR_RECORDS:
+                rep.excepted("FLOW", f"{g.short}|manual-call-record-in-the-list-of-its-mode|always-regular", _REGULAR_RECORDS[g.short], E.where(g, l.node))
+                continue
+            rep.check(ok_c, "FLOW", f"{g.short}|manual-call-record-in-the-list-of-its-mode|{sh(a0[2][0], 30) if a0[2] else ''}", "_to_build_calls if parametrized else _calls", f"{g.short} appends its hand-made call record to `{sh(recv, 80)}` whatever the mode: a call made before the sequence became parametrized must go to _calls (build() replays _calls first, so a regular call kept in _to_build_calls is replayed after the regular calls that followed it -- later pulses get the old setpoint)", E.where(g, l.node))
+    if n_man < 3:
+        rep.error(f"only {n_man} hand-made call records found (expected store decorator, enable_eom_mode, modify_eom_setpoint)")
     rep.floor("MAP", 3)
     # build() refuses an incomplete assignment whatever else is wrong with it: the "Did not receive values" rejection
     # depends on the missing names only (not on whether unknown names were also given) -- otherwise a variable keeps
@@ -320,6 +358,15 @@ def run(E: Engine, rep: Report, tier: str) -> dict:
     sreg = E.method(SEQ, "_set_register")
     names_ = {x[3][1] if x[2][0] != "const" else x[2][1] for l in S(E, sreg, inline=False).log for x in sym.subterms(l.cond) if x[0] == "cmp" and x[1] == "Eq" and any(y[0] == "const" and isinstance(y[1], str) and y[1].startswith("phase_shift") for y in (x[2], x[3]))}
     rep.check({"phase_shift", "phase_shift_index"} <= names_, "FLOW", "Sequence._set_register|phase-shift-targets-must-be-mapped", "recorded phase_shift / phase_shift_index targets are added to the used qubits", f"_set_register compares only the targets of Local channels with the mapped qubits (by-name scans found: {sorted(names_)}): a phase shift recorded for a qubit that the mapping leaves out survives build(qubits=...), where the direct construction raises", E.where(sreg))
+    #     ... read from the arguments AFTER the angle: phase_shift(phi, *targets) / phase_shift_index(phi, *indices) keep phi
+    #     in args[0], which is not a qubit
+    for l in S(E, sreg, inline=False).calls("update"):
+        if not any(x[0] == "cmp" and x[1] == "Eq" and any(y[0] == "const" and isinstance(y[1], str) and y[1].startswith("phase_shift") for y in (x[2], x[3])) for x in sym.conj_of(l.cond)) or not l.value[2]:
+            continue
+        stripped = sym.subst(l.value[2][0], lambda t: ("const", "<targets>") if t and t[0] == "idx" and len(t) > 2 and isinstance(t[1], tuple) and len(t[1]) > 2 and isinstance(t[2], tuple) and len(t[2]) > 1 and t[1][0] == "attr" and t[1][2] == "args" and t[2][0] == "slice" and t[2][1] == ("const", 1) else None)
+        whole = [t for t in sym.subterms(stripped) if t[0] == "attr" and t[2] == "args"]
+        which = next((y[1] for x in sym.conj_of(l.cond) if x[0] == "cmp" and x[1] == "Eq" for y in (x[2], x[3]) if y[0] == "const" and isinstance(y[1], str) and y[1].startswith("phase_shift")), "?")
+        rep.check(not whole, "FLOW", f"Sequence._set_register|phase-shift-targets-exclude-the-angle|{which}", "targets are call.args[1:]", f"_set_register reads the targets of a recorded {which} from `{sh(l.value[2][0], 100)}`: args[0] is the angle phi, so its integer part is taken for a qubit (index) -- build(qubits=...) raises for phi = 3.5 ('q3' not assigned a trap) although the direct construction accepts the same calls", E.where(sreg, l.node))
     # (5) the template accepts variables INSIDE a collection argument (target_index([0, var], ch): verify_variable and
     #     _check_qubits_give_ids look into the collection), so build() has to evaluate the members of list/tuple
     #     arguments too -- it evaluates top-level Parametrized arguments only
